@@ -104,7 +104,8 @@ def showDRs (l : List (String × List CDR)) : String :=
   if l.isEmpty then "-" else
   let l := l.mergeSort (fun a b => !(b.1 < a.1))
   ",".intercalate (l.map fun (h, cs) =>
-    enc h ++ ">" ++ "&".intercalate (cs.map fun c => "+".intercalate (c.frm.map fun f => enc (f.1 ++ "/" ++ f.2))))
+    enc h ++ ">" ++ "&".intercalate (cs.map fun c =>
+      "+".intercalate (c.frm.map fun f => enc (f.1 ++ "/" ++ f.2)) ++ "/" ++ plus (c.subsets.map enc)))
 
 def DState.flags (d : DState) : Flags :=
   { unified := d.unified, pickBest := d.pickBest, enhanced := d.enhanced, visGuard := d.visGuard, exactGuard := d.exactGuard, aliasGuard := d.aliasGuard }
@@ -119,6 +120,25 @@ def showScope (d : DState) (name : String) (ls : List ILW) (services : List Svc)
 
 def decVis : String → SEVis
   | "n" => .ns | "x" => .none | _ => .pub
+
+/-- outbound cluster names CDS builds from a service list: ExternalName (Alias) services have no
+    cluster of their own; the DestinationRule picked for the proxy contributes its subsets -/
+def clusterNames (d : DState) (cfgNs : String) (labels : List (String × String)) (services : List Svc) : List String :=
+  let drs := selectDestinationRules d.mesh d.drIdx cfgNs services
+  (services.filter (·.extName.isNone)).flatMap fun s =>
+    let subsets := match alookup s.hostname drs with
+      | some cs => (match pickDR cfgNs labels cs none with | some c => c.subsets | none => [])
+      | none => []
+    s.ports.flatMap fun p =>
+      ("outbound|" ++ toString p.num ++ "||" ++ s.hostname) ::
+        subsets.map fun sub => "outbound|" ++ toString p.num ++ "|" ++ sub ++ "|" ++ s.hostname
+
+/-- the endpoint address the harness registers for a (hostname, namespace) key -/
+def keyAddr (raw : List Svc) (h ns : String) : String :=
+  let keys := (raw.map fun s => (s.hostname, s.ns)).eraseDups
+  match keys.findIdx? (fun k => k.1 == h && k.2 == ns) with
+  | some i => "10.9." ++ toString (i / 200) ++ "." ++ toString (i % 200 + 1)
+  | none => ""
 
 def query (d : DState) (toks : List String) : String :=
   match toks with
@@ -141,13 +161,30 @@ def query (d : DState) (toks : List String) : String :=
     let ls := scopeListeners d.flags d.mesh d.svcs d.vss sc cfgNs
     showScope d name ls (collectImportedServices d.flags d.mesh d.svcs cfgNs ls) cfgNs
   | ["xds", ns, lbl] =>
-    -- CDS: one outbound cluster per (service of the scope, port)
+    -- CDS: one outbound cluster per (service of the scope, port), plus the subset clusters
+    let cfgNs := dec ns
+    let labels := (decLabels lbl).getD []
+    let sc := pickSidecar d.mesh d.scs cfgNs labels
+    "C=" ++ encSet (clusterNames d cfgNs labels (scopeServices d.flags d.mesh d.svcs d.vss sc cfgNs))
+  | ["xdsgw", ns] =>
+    -- CDS of a Router proxy (FilterGatewayClusterConfig off): the clusters of its default scope
+    let cfgNs := dec ns
+    let services := if d.defaultNs.contains cfgNs
+      then scopeServices d.flags d.mesh d.svcs d.vss none cfgNs
+      else gatewayScopeServices d.aliasGuard d.mesh d.svcs cfgNs
+    "C=" ++ encSet (clusterNames d cfgNs [("istio", "ingressgateway")] services)
+  | ["eds", ns, lbl] =>
+    -- EDS for outbound|port||h of every hostname of the mesh: answered from the scope's service only
     let cfgNs := dec ns
     let sc := pickSidecar d.mesh d.scs cfgNs ((decLabels lbl).getD [])
     let services := scopeServices d.flags d.mesh d.svcs d.vss sc cfgNs
-    -- ExternalName (Alias) services have no cluster of their own
-    let names := (services.filter (·.extName.isNone)).flatMap fun s => s.ports.map fun p => "outbound|" ++ toString p.num ++ "||" ++ s.hostname
-    "C=" ++ encSet names
+    let hosts := sortDedup (d.svcs.map (·.hostname))
+    let answers := hosts.flatMap fun h =>
+      match services.find? (·.hostname == h) with
+      | none => []
+      | some w => [80, 81, 8080, 9090].filterMap fun port =>
+          if w.ports.any (·.num == port) then some (h ++ ":" ++ toString port ++ "=" ++ keyAddr d.raw h w.ns) else none
+    "E=" ++ encList (answers.mergeSort (fun a b => !(b < a)))
   | ["gw", ns] =>
     let cfgNs := dec ns
     -- "Gateways always use default sidecar scope": a default scope cached by an earlier sidecar proxy wins
@@ -186,9 +223,10 @@ def stepD (d : DState) (toks : List String) : DState × String :=
                     exportTo := decItems ex ",", gateways := decItems gws ",", gwSem := tokBool gwsem,
                     http := decHTTP http, tcp := decDests tcp }
     ({ d with vssRaw := d.vssRaw ++ [v] }, "ok")
-  | ["dr", name, ns, ct, h, ex, sel] =>
+  | ["dr", name, ns, ct, h, ex, sel, subs] =>
     let r : DR := { name := dec name, ns := dec ns, ctime := ct.toNat!, host := dec h,
-                    exportTo := decItems ex ",", selector := tokBool sel }
+                    exportTo := decItems ex ",", selector := sel != "nil", selLabels := (decLabels sel).getD [],
+                    subsets := decItems subs "," }
     ({ d with drs := d.drs ++ [r] }, "ok")
   | ["sc", name, ns, ct, sel, egress] =>
     let c : Sidecar := { name := dec name, ns := dec ns, ctime := ct.toNat!, selector := decLabels sel,
@@ -198,7 +236,7 @@ def stepD (d : DState) (toks : List String) : DState × String :=
     ({ d with built := true, defaultNs := [], svcs := resolveAliases (sortServices d.raw), vss := sortVS d.vssRaw,
               drIdx := setDestinationRules d.enhanced d.mesh d.drs }, "ok")
   | [q, ns, lbl] =>
-    if q != "scope" && q != "xds" then (if d.built then (d, query d toks) else (d, "not-built")) else
+    if q != "scope" && q != "xds" && q != "eds" then (if d.built then (d, query d toks) else (d, "not-built")) else
     if !d.built then (d, "not-built") else
     let cfgNs := dec ns
     let cached := (pickSidecar d.mesh d.scs cfgNs ((decLabels lbl).getD [])).isNone
